@@ -92,7 +92,8 @@ struct Runner {
     std::vector<std::pair<int64_t, int64_t>> calls;
     std::vector<std::vector<int64_t>> rxset;
 
-    struct Rec { std::vector<int64_t> key; int64_t o; bool present = true, valid = true, muted = false; };
+    struct Rec { std::vector<int64_t> key; int64_t o; bool present = true, valid = true, muted = false; long shrinkStamp = 0; };
+    long shrinks = 0;       // a key holds its subject from its first subscribe until a shrink removes it: nothing else does
     std::vector<Rec> ref;
     std::set<std::vector<int64_t>> ever;
 
@@ -142,6 +143,7 @@ struct Runner {
                 obsPtr.push_back(ob);
                 handles.emplace_back(router.template subscribe<Args...>(buildKey(p), static_cast<tulz::Observer<Args...> *>(ob)));
                 ref.push_back({key, o});
+                ref.back().shrinkStamp = shrinks;
                 for (size_t n = 0; n <= key.size(); ++n) ever.insert(std::vector<int64_t>(key.begin(), key.begin() + n));
                 break;
             }
@@ -175,6 +177,10 @@ struct Runner {
                     for (auto &x : expect) m += " " + std::to_string(x.first) + "(" + std::to_string(x.second) + ")";
                     oracle_fail(m);
                 }
+                std::set<std::vector<int64_t>> holding = live;      // keys that certainly still hold a subject
+                for (auto &r : ref) if (all.count(r.key) && r.shrinkStamp == shrinks) holding.insert(r.key);
+                if (n < holding.size())
+                    oracle_fail("C06: notify returned " + std::to_string(n) + " but " + std::to_string(holding.size()) + " matched keys hold a subject (subscribed, and no shrink since)");
                 if (n < live.size() || n > all.size())
                     oracle_fail("C06: notify returned " + std::to_string(n) + " but " + std::to_string(live.size()) + " matched keys have subscriptions and " + std::to_string(all.size()) + " were ever subscribed");
                 for (auto &r : ref) if (all.count(r.key) && !r.valid) r.present = false; // lazily removed
@@ -185,6 +191,7 @@ struct Runner {
                 if (!parsePattern(l, 1, nrx, p)) { ok = false; break; }
                 size_t depthBefore = router.depth();
                 router.shrink(buildKey(p));
+                ++shrinks;
                 // C13: a wildcard pattern at least as deep as the tree removes every dead branch
                 bool allWild = true;
                 for (auto &lv : p) if (!lv.rx || lv.id != 0) allWild = false;
